@@ -62,7 +62,7 @@ def _run_one(args):
     t0 = time.time()
     if os.environ.get("PYVC_SELFTEST_CRASH") == name:  # self-test of the pool: this worker dies abruptly
         os.kill(os.getpid(), 11)
-    _alarm(600 if timeout_ms <= 10000 else 3600)
+    _alarm(600 if timeout_ms <= 20000 else 3600)
     try:
         r = run_unit(UNITS[name], timeout_ms=timeout_ms)
         return name, r.to_json()
@@ -184,7 +184,7 @@ def main(argv=None):
     t0 = time.time()
     seed = int(os.environ.get("VERIF_SEED", "0") or 0)
     tier = a.tier if a.tier in ("quick", "thorough") else "quick"
-    timeout_ms = 10000 if tier == "quick" else 60000
+    timeout_ms = 20000 if tier == "quick" else 60000
     load_contracts()
     from pyvc import native
 
